@@ -357,6 +357,26 @@ CHECKS = {
 }
 
 NOT_YET = {
+    "C20": dict(
+        category="fault_enumeration",
+        text=("Light-aggregator half of the property. Ipa.tla models the inner-product argument over a toy field with group elements "
+              "as coordinate vectors over independent bases; TLC explores every scalar vector and challenge sequence (P = 5, N = 2; "
+              "P = 3, N = 4; thorough also P = 7) and checks completeness, the folding invariant <s',b'> = <s,b> + u^2 L + u^-2 R, and "
+              "that a changed final scalar, claimed value or round message is rejected. Against the code: valid inner proofs of a "
+              "standard-library relation over four chip architectures (8/9/10/12 permutation columns, 1..3 lookups) are aggregated "
+              "through the public API with NB_PROOFS 1, 2 and 3 under a recording transcript; Agg_Trace requires aggregation and "
+              "verification to succeed and consume the whole proof, the verifier to read exactly what the prover wrote with "
+              "challenges drawn at the same places, the outer layout (n, points, scalars | m, points, committed, evaluated | inner "
+              "PLONK proof | IPA: commons, r, k x (L, R, u), s | r) to hold, every corruption of the plan (bit flips, replacement "
+              "by another valid point, count +-1, truncation, extension) and every edited or swapped inner public input to be "
+              "rejected, invalid inner proofs never to yield an accepted aggregate, and the plan to cover the elements it promises "
+              "(quick: the first 12, last 24 and every 6th element; thorough: every element, 12 aggregations)."),
+        design_ref="DESIGN.md 4/C20",
+        note=("Not covered: the foreign-curve verifier gadget (in-circuit vs off-circuit accumulator under MockProver), the IVC "
+              "example, the IPA as a stand-alone function (private module). aggregate_proofs refuses some invalid inner proofs by "
+              "panicking instead of returning Err (counted as refusal, noted in the evidence)."),
+        technique="TLA+/TLC model checking of the IPA folding argument + spec-checked fault enumeration on recorded aggregator transcripts (trace validation)",
+    ),
 }
 
 ALL = [f"C{i:02d}" for i in range(1, 21)]
